@@ -579,8 +579,8 @@ where
                     d
                 };
                 for (k, &op) in seq.iter().enumerate() {
-                    if cur >= n {
-                        return Ok(()); // exhausted in the model: the rest of the history is not pinned
+                    if cur >= n && op < IT_CONSUMING {
+                        return Ok(()); // exhausted in the model: what further consuming calls answer is not pinned
                     }
                     let (got, want): (Option<u64>, Option<u64>) = match op {
                         0 => {
@@ -619,13 +619,15 @@ where
                             let _ = other.next();
                             let _ = other.next();
                             let _ = other.take(n + 2).count();
+                            // ... and one more is made and dropped unused while both are out of the way
+                            drop(mk());
                             (None, None)
                         }
                     };
                     if got != want {
                         return Err(format!("after {} the {}-th call answers {} where repeated next() gives {} (item {} of {})", describe(k, None), k + 1, if got.is_some() { "an item (or count) that differs" } else { "None" }, if want.is_some() { "another item" } else { "None" }, cur, n));
                     }
-                    if cur > n {
+                    if cur > n && op < IT_CONSUMING {
                         return Ok(());
                     }
                     // asking for the size hint is an observation: it must return and leave the iterator alone
